@@ -466,5 +466,6 @@ pub fn run(ctx: &Ctx) -> Vec<Eng> {
             });
         }
     }
-    vec![e1, e2, e3, e4, e5]
+    let ew = crate::c05::wiring_engine("c12-input-wirings", &[4, 5, 6, 7, 15, 16], 5, budget);
+    vec![e1, e2, e3, e4, e5, ew]
 }
